@@ -56,7 +56,7 @@ CHECKS = {
  "C11": ("proof",
          "PARTIAL BY NATURE. Lean theorems (kind E): the Phi recursions of the AMEn matrix product are the exact left/right partial contractions of <X, A·B>, and the local right-hand side `_local_AB` tested against any core V equals the global trilinear form with X's k-th core replaced by V (localAB_galerkin), the full sweep equals Σ X(i,j)·Σ_k A(i,k)B(k,j) (abxSweep_eq_dense): the local problems are the exact Galerkin projections of the exact product. "
          "Tie: the module-level kernels of _amen.py are compared exactly with the models on integer data. The headline inequality ||y - A x|| <= C·eps·||A x|| (kind K: no convergence proof of DMRG/AMEn exists) is MONITORED, not proved: fast_matvec, dmrg_hadamard, amen_mv, amen_mm vs the exact product for orders 1..6, random and user guesses, complex for DMRG (C = 10; observed <= 0.7·eps).",
-         TB + "error bound only monitored (truncation, kick and stopping rule of the sweeps are not modelled); the core update of _amen_mm_python after each local step (truncated SVD factors, rank enrichment by the residual block, QR, absorption into the next core) is modelled (TTModel/AmenStep.lean) and proved not to change the represented tensor beyond the SVD truncation (TT.C12d.updateEnrich_chain, update_full: rank enrichment is invisible for ANY enrichment block given Q·R = [u|uk]); the cores written back by the running loop are recomputed by that model on the factors of the run and the QR hypothesis is checked; translator tie: the subscripts of _compute_phi_fwd_AB/_bck_AB/_fwd_x/_bck_x/_local_AB are extracted from the current source, translated to Lean and checked definitionally equal to the model kernels (harness/einsum2lean.py); the inline einsum chains of _dmrg.py and the environments stored by the DMRG / AMEn product loops are tied by observing the running functions from outside (sys.settrace) and recomputing them with the Lean kernels dmrgPhiBck/Fwd, dmrgSuper (theorem dmrgSuper_galerkin), localAB and the folds in exact rationals; QR/SVD contracts", "§5 C11"),
+         TB + "error bound only monitored (truncation, kick and stopping rule of the sweeps are not modelled); the core update of _amen_mm_python after each local step (truncated SVD factors, rank enrichment by the residual block, QR, absorption into the next core) is modelled (TTModel/AmenStep.lean) and proved not to change the represented tensor beyond the SVD truncation (TT.C12d.updateEnrich_chain, update_full: rank enrichment is invisible for ANY enrichment block given Q·R = [u|uk]); the cores written back by the running loop are recomputed by that model on the factors of the run and the QR hypothesis is checked; translator tie: the subscripts of _compute_phi_fwd_AB/_bck_AB/_fwd_x/_bck_x/_local_AB and of the 22 inline einsum calls of dmrg_matvec_python / dmrg_hadamard_python are extracted from the current source, translated to Lean and checked definitionally equal to the model kernels / chains (harness/einsum2lean.py); the chains are proved equal to the one-shot kernels dmrgSuper, dmrgPhiBck/Fwd (on the diagonal embedding for the Hadamard product) in C11c; the inline einsum chains of _dmrg.py and the environments stored by the DMRG / AMEn product loops are tied by observing the running functions from outside (sys.settrace) and recomputing them with the Lean kernels dmrgPhiBck/Fwd, dmrgSuper (theorem dmrgSuper_galerkin), localAB and the folds in exact rationals; QR/SVD contracts", "§5 C11"),
  "C12": ("proof",
          "PARTIAL BY NATURE. Lean theorems (kind E): `_compute_phi_fwd_A/bck_A/…_rhs` are the exact partial contractions of <x, A y> and <b, x>; `_LinearOp.matvec` (tensordot sequence) equals `_local_product`; Galerkin exactness: <x[k:=v], A x[k:=u]> = <v, localProduct(Φ_l, A_k, Φ_r) u> and <b, x[k:=v]> = <v, localRhs> for every position, order, rank profile and core value — the local systems AMEn solves are the exact projections of the global system. "
          "Tie: every kernel of solvers.py (dense and banded local product, _LinearOp with and without preconditioners, phi recursions) compared exactly with the models on integer data; preconditioner blocks checked against the stated diagonal blocks. The residual inequality ||A x - b|| <= C·eps·||b|| (kind K) is MONITORED over SPD / diagonally dominant / Laplacian-like systems, all preconditioners, GMRES / BiCGSTAB / direct local solves, guesses, seeds (C = 10).",
@@ -72,7 +72,7 @@ CHECKS = {
  "C16": ("proof",
          "Lean theorems over the model of manifold.py: `_delta2cores` represents exactly the sum of the d tangent terms L_0…L_{k-1} δ_k R_{k+1}…R_{d-1} (full_delta2cores) with interior ranks exactly twice those of x (ranks_twice / ranks_project_le); the projection is linear in z at the level of the represented tensor (project_add, project_smul, for z, w of arbitrary ranks); it fixes the base point given only left-orthonormality of the gauge (proj_fixed, gauge conditions as algebraic hypotheses). "
          "Tie: `_delta2cores` compared exactly on integer cores; for riemannian_projection the gauges computed by the implementation are captured and the model's projection (exact rationals) is compared with the real one (1e-9); the six identities of the property (linear, idempotent, self-adjoint, fixes x, residual orthogonal, rank <= 2r) and riemannian_gradient = P(Euclidean gradient) for three function families are checked numerically on every case.",
-         TB + "idempotence, self-adjointness, residual orthogonality, Pythagoras are Lean theorems (proj_idempotent under orthonormal gauges, proj_selfadjoint unconditionally, proj_orthogonal_projector) whose hypotheses (orthonormal gauges, equal rank profiles) are checked numerically on the gauges each run used; that QR returns orthonormal factors is the trusted contract; riemannian_gradient = P(grad f) rests on autograd and is an oracle check", "§5 C16"),
+         TB + "translator tie for the two Gram recursions Pleft / Pright of riemannian_projection (TT-matrix branch); idempotence, self-adjointness, residual orthogonality, Pythagoras are Lean theorems (proj_idempotent under orthonormal gauges, proj_selfadjoint unconditionally, proj_orthogonal_projector) whose hypotheses (orthonormal gauges, equal rank profiles) are checked numerically on the gauges each run used; that QR returns orthonormal factors is the trusted contract; riemannian_gradient = P(grad f) rests on autograd and is an oracle check", "§5 C16"),
  "C17": ("proof",
          "PARTIAL BY NATURE. Lean theorems about the C++ rank selection (counting-down loop of cpp/ortho.h): rank in [1,len] and discarded energy < eps² for eps>0, it is the least rank with strictly smaller tail, it coincides with the Python rank_chop except at exact ties (where it keeps one more value) and Python's rank <= C++'s; documented difference at eps <= 0. "
          "Tie: the extension is rebuilt from /repo/cpp on every source change (plus a 5-line verification-only shim exposing rank_chop) and C++ rank_chop is compared exactly with the model; both backends are run on the same systems / products (all preconditioners, with/without guess): same inputs accepted/rejected, both satisfy the C11/C12 contracts, mutual residual distance within them (MONITORED, kind K).",
@@ -131,7 +131,7 @@ def main():
             "engine": "lean-model+correspondence",
             "level_claimed": {"category": cat, "text": text, "design_ref": "DESIGN.md " + ref},
             "level_note": note,
-            "technique": TECH_GEN if pid in ("C11", "C12", "C13") else TECH,
+            "technique": TECH_GEN if pid in ("C11", "C12", "C13", "C16") else TECH,
         })
     man = {
         "version": 1,
